@@ -302,6 +302,10 @@ func (matrix *SparseIntMatrix) AsVector() Vector {
   return matrix.AsSparseIntVector()
 }
 func (matrix *SparseIntMatrix) storageLocation() uintptr {
+  if matrix.values.Dim() == 0 {
+    // no storage to point into: the matrix header identifies an empty matrix
+    return uintptr(unsafe.Pointer(matrix))
+  }
   return uintptr(unsafe.Pointer(matrix.values.AT(0).ptr))
 }
 /* const interface
